@@ -472,6 +472,21 @@ func Execute(f *Family, sc *work.Scratch, tag string, units []*Unit, pack int) (
 		if rt := p.units[0].Str("roottype"); rt != "" && pack <= 1 {
 			rootType = rt
 		}
+		// the program must declare the type of its root document: a run that succeeds without emitting it would
+		// otherwise only show as a runner that does not link
+		if f.Judge != "build" {
+			found := false
+			for _, n := range declaredTypes(filepath.Join(sc.Mod, "gen", p.id, "root.go")) {
+				found = found || n == rootType
+			}
+			if !found {
+				for _, e := range byProg[p.id] {
+					e.Built = false
+					e.BuildErr = "the emitted package does not declare the root type " + rootType
+				}
+				continue
+			}
+		}
 		okProgs = append(okProgs, work.Prog{Key: p.id, PkgPath: "gen/" + p.id, Type: rootType})
 	}
 	if f.Judge == "build" { // C01: nothing is executed
